@@ -72,6 +72,9 @@ def dirs():
     return {
         'long': D({n: F(len(n) % 7) for n in long_names()}),
         'r1': D({'a<1>.txt': F(1), 'b&1': F(2), 'c"1': F(3)}), 'r2': D({'d,2': F(4), 'e\n2': F(5)}),
+        # a line break early in a value that goes on for more than a line buffer after it (and before it)
+        'nl': D({'top\ndir': D({'a' * 240: D({'b' * 240: D({'c' * 240: D({'d' * 240: D({'e' * 240: D({'leaf\n.txt': F(1)})})})})})}),
+                 'f' * 250: D({'g' * 250: D({'h' * 250: D({'i' * 250: D({'j' * 250: D({'k\nl': D({'m' * 200: F(2)})})})})})})}),
         'd0': D({}),
         'd1': D({'a<b>&"c\',d.txt': F(3)}),
         'd2': D({'x,y "z"\n.csv': F(1), "q<r>&amp;'s'\t.html": F(22)}),
@@ -86,6 +89,8 @@ def groups(tier, seed):
            [{'cols': 'long42', 'fmt': f, 'limit': None} for f in FORMATS]}
     yield {'dir': 'long', 'path': 'ordered', 'cases': [{'cols': 'long5', 'fmt': f, 'limit': 3} for f in FORMATS] +
            [{'cols': 'long42', 'fmt': f, 'limit': None} for f in FORMATS]}
+    for path in ('stream', 'ordered'):
+        yield {'dir': 'nl', 'path': path, 'cases': [{'cols': ci, 'fmt': f, 'limit': None} for ci in (4, 8, 1) for f in ('json', 'csv', 'html')]}
     # several roots with the limit reached inside the first / exactly at the end of the first / inside the second
     for path in ('stream', 'ordered'):
         yield {'dir': 'r1, r2', 'path': path, 'cases': [{'cols': ci, 'fmt': f, 'limit': lim} for ci in (0, 1) for f in FORMATS
@@ -102,10 +107,15 @@ def groups(tier, seed):
                             continue
                         cases.append({'cols': ci, 'fmt': fmt, 'limit': lim})
             yield {'dir': d, 'path': path, 'cases': cases}
+    # a constant first column (its name has no letters, so it reads the same in every letter case)
+    for d in ('d1', 'plain'):
+        for path in ('stream', 'ordered', 'aggregate', 'grouped', 'grouped-ordered'):
+            yield {'dir': d, 'path': path, 'cases': [{'cols': ci, 'fmt': fmt, 'limit': None, 'lit': lit} for ci in (0, 1) for fmt in FORMATS
+                                                      for lit in ('1', "'#'", '2 + 3', "'-1'")]}
 
 
 def single(case):
-    return {'dir': case['dir'], 'path': case['path'], 'cases': [{k: case[k] for k in ('cols', 'fmt', 'limit')}]}
+    return {'dir': case['dir'], 'path': case['path'], 'cases': [{k: case[k] for k in ('cols', 'fmt', 'limit', 'lit') if k in case}]}
 
 
 class TableParser(HTMLParser):
@@ -256,7 +266,7 @@ def eval_group(env, group, tier):
         for c in group['cases']:
             cols = COLSETS[c['cols']] if isinstance(c['cols'], int) else (LONG5 if c['cols'] == 'long5' else LONGSEL)
             fmt = c['fmt']
-            if fmt in ('tabs', 'lines') and d in ('many', 'd2', 'r1, r2'):
+            if fmt in ('tabs', 'lines') and d in ('many', 'd2', 'r1, r2', 'nl'):
                 continue
             if path == 'stream':
                 sel, tail, ordered = cols, '', False
@@ -270,6 +280,8 @@ def eval_group(env, group, tier):
                 sel, tail, ordered = cols + ['count(*)'], ' group by ' + ', '.join(cols) + ' order by name', True
             if c['limit']:
                 tail += ' limit %d' % c['limit']
+            if c.get('lit'):
+                sel = [c['lit']] + sel
             base = ', '.join(sel) + ' from ' + d + tail
             ref = env.run([base + ' into list'], cwd=root)
             refrows = ref.rows(len(sel))
